@@ -9,13 +9,14 @@ import sys
 import vcommon
 sys.path.insert(0, os.path.join(vcommon.VERIF, "crates", "abi-interp", "py"))
 import abiinterp_driver as _abiinterp  # noqa: E402
+import c04_backends as _backends  # noqa: E402
 
 META = {
-    "engine": "abi-interp",
+    "engine": "abi-interp + exprsem",
     "level": "exploration",
-    "technique": "exhaustive/sampled execution of the generator's Bitcast choices by a typed abstract machine against the canonical ABI's lower_flat_variant / lift_flat_variant coercions, plus differential lowering/lifting of variant shapes",
+    "technique": "exhaustive/sampled execution of the generator's Bitcast choices by a typed abstract machine, and of every backend's emitted cast expressions (compiled with UBSan or interpreted), against the canonical ABI's lower_flat_variant / lift_flat_variant coercions; differential lowering/lifting of variant shapes",
     "text": "cast(from,to) for the 49 ordered pairs: the 10 pairs join can never produce must panic through unreachable!(), the other 39 are executed on boundary x exhaustive-16-bit patterns (quick) or all 2^32 patterns of 32-bit sources (thorough) and structured + random 64-bit patterns, at pointer widths 4 and 8: result must equal the spec coercion and into-slot followed by out-of-slot must be bit-exact. All 2-case and 3-case variants over 12 payload shapes (every joinable ordered pair arises; checked) plus boundary and random worlds: the casts found in the recorded lower/lift arms must connect exactly the payload's and the joined slot's core types, are swept likewise, and values are lowered/lifted end to end against cabi-ref. 64-bit domains are sampled, not exhausted.",
-    "note": "TODO (not part of this check): DESIGN C04 part (3) — the per-backend perform_cast expression strings obtained through hook H4 (Rust/C/C++ compiled and run, C#/Go/MoonBit/D through exprsem) are judged elsewhere; this check only covers wit-bindgen-core. Trusted: cabi-ref coercions; the machine's Bitcast semantics (equal size reinterpret, 32->64 zero-extend, 64->32 wrap, each primitive type-checked).",
+    "note": "Part (3) of DESIGN C04 — every backend's perform_cast / Bitcast expression strings obtained through hook H4 — is judged in the same check by lib/c04_backends.py (engine exprsem: Rust/C/C++ strings compiled with UBSan and executed, C#/Go/MoonBit/D strings evaluated by typed interpreters that model those languages' conversion rules, listed in coverage.backend_casts_trusted_base). Sign- versus zero-extension into a wider joined slot is accepted (the receiving side wraps), and recorded in coverage.backend_casts_slot_high_bits. Trusted: cabi-ref coercions; the machine's Bitcast semantics (equal size reinterpret, 32->64 zero-extend, 64->32 wrap, each primitive type-checked). 64-bit domains are sampled.",
 }
 FLOORS = {"quick": (100000000, 500), "thorough": (10000000000, 500)}
 
@@ -27,5 +28,14 @@ def run(tier, seed, replay):
         FLOORS = {"quick": (1, 1), "thorough": (1, 1)}
     rep = vcommon.Report("C04", level="exploration",
                          rule="evaluation = one (cast, source bit pattern) execution or one (variant shape, case, slot, width) check; distinct = cast pairs x widths, emitted cast trees, variant shapes")
-    _abiinterp.run_bin(rep, "c04", tier, seed, replay, timeout=900 if tier == "quick" else 5400, miri_shard=(tier == "thorough"))
+    is_backend_replay = replay is not None and str(replay.get("signature", "")).startswith("cast:")
+    if not is_backend_replay:
+        _abiinterp.run_bin(rep, "c04", tier, seed, replay, timeout=900 if tier == "quick" else 5400, miri_shard=(tier == "thorough"))
+    if replay is None or is_backend_replay:
+        # part (3): the backends' own cast expressions (a failure of this part to
+        # run is inconclusive for it, never a verdict)
+        try:
+            _backends.run_backend_casts(rep, tier, seed, replay)
+        except vcommon.HarnessFailure as e:
+            rep.inconc("backend cast part could not run: %s" % str(e)[-300:])
     return rep
